@@ -542,6 +542,14 @@ func oddities() []string {
 			out = append(out, fmt.Sprintf(w, nm))
 		}
 	}
+	// property names with backslashes and quotes; integer keywords written as large integral floats
+	out = append(out, `{"properties":{"dir\\name":{"type":"integer"},"C:\\temp":{},"back\\\\slash":false,"q\"uote":true,"tab\tname":{}},"required":["dir\\name"]}`,
+		`{"patternProperties":{"^a\\.b$":{"type":"integer"}},"dependentRequired":{"x\\y":["dir\\name"]}}`)
+	for _, k := range []string{"maxLength", "minLength", "minItems", "maxItems", "minContains", "maxContains", "minProperties", "maxProperties"} {
+		for _, v := range []string{`16777217.0`, `100000001.0`, `2147483647.0`, `16777217`, `1e3`, `33554433.0`} {
+			out = append(out, fmt.Sprintf(`{"contains":true,%q:%s}`, k, v))
+		}
+	}
 	// numbers that float64 cannot hold exactly, or at all
 	for _, n := range []string{`9007199254740993`, `12345678901234567890`, `0.1000000000000000000001`, `-9007199254740993`, `1e400`, `-1e400`, `1e-400`} {
 		for _, slot := range []string{`{"const":%s}`, `{"enum":[%s]}`, `{"examples":[%s]}`, `{"default":%s}`, `{"x":%s}`, `{"x":[{"a":%s}]}`, `{"minimum":%s}`, `{"multipleOf":%s}`, `{"properties":{"a":{"const":%s,"x":%s}}}`,
